@@ -201,6 +201,18 @@ func (s *V2Session) buildAndSend(ctx context.Context, c ipmi.Command) error {
 		if err := types.InnermostEquals(ipmi.LayerTypeMessage); err != nil {
 			return err
 		}
+		// the session layer validates the signature of authenticated packets,
+		// but it is up to us to insist the packet was authenticated in the
+		// first place, and addressed to this session; anything else is
+		// treated as if we had not received a valid response
+		if s.integrityAlgorithm != nil && !s.v2SessionLayer.Authenticated {
+			return fmt.Errorf("received unauthenticated packet in a session using %v",
+				s.IntegrityAlgorithm)
+		}
+		if s.v2SessionLayer.ID != s.LocalID {
+			return fmt.Errorf("received packet for session %#x, ours is %#x",
+				s.v2SessionLayer.ID, s.LocalID)
+		}
 		code := s.messageLayer.CompletionCode
 		// must increment here, otherwise we'll miss temporary codes at the
 		// higher levels
